@@ -840,3 +840,24 @@ impl<E: Effect, R: CommandReceiver<E>, S: EventSender<E>> Worker<E, R, S> {
         Ok(())
     }
 }
+
+#[cfg(feature = "verif")]
+impl<E: Effect, R: CommandReceiver<E>, S: EventSender<E>> Worker<E, R, S> {
+    /// The worker's executor, read-only (verification harness).
+    pub fn verif_executor(&self) -> &Executor<E> {
+        &self.executor
+    }
+
+    /// Targets with a registered awaiter, and the awaiters registered per target, sorted.
+    pub fn verif_awaited(&self) -> (Vec<ProcessId>, Vec<(ProcessId, Vec<ProcessId>)>) {
+        let mut awaited: Vec<ProcessId> = self.awaited.iter().copied().collect();
+        awaited.sort_unstable();
+        let mut awaiters: Vec<(ProcessId, Vec<ProcessId>)> = self
+            .awaiters_for_target
+            .iter()
+            .map(|(target, list)| (*target, list.clone()))
+            .collect();
+        awaiters.sort();
+        (awaited, awaiters)
+    }
+}
